@@ -18,6 +18,7 @@ use reactive_graph::{
     owner::{provide_context, Owner},
     signal::ArcRwSignal,
     traits::{Get, GetUntracked, Notify, Set, Track, Update, WithUntracked, Write},
+    transition::AsyncTransition,
 };
 use std::{
     cell::RefCell,
@@ -220,8 +221,149 @@ pub fn run(c: &Sexp) -> Sexp {
     out
 }
 
+// ------------------------------------------------------------------ transitions (shape 6)
+/// case `(6 prog events)`: one task awaits `AsyncTransition::run(action)`, where the action is the
+/// item list `prog`: `(0 kind)` creates an async derived value (kind 0 `ArcAsyncDerived::new`,
+/// 1 `AsyncDerived::new`, 2 leptos_server `ArcResource::new`, 3 `Resource::new`) whose fetch future
+/// is completed by the history, `(1 items)` awaits a nested `AsyncTransition::run(items)`. Node k
+/// loads the value 100 + k; tasks: 0 = the awaiting task, k + 1 = node k's. Events: `(4 f)`
+/// complete future f, `(5 t)` poll task t, `(6 picks)` run until idle. Observation after every
+/// event: `(nodes runs ready)`: per node `(value loading)`, per started run (numbered as they
+/// start) `(0)` or `(1 snapshot)` = what the nodes created inside its action looked like at the
+/// moment the task awaiting that `run(..)` was resumed.
+struct TState {
+    nodes: Vec<Node>,
+    /// per run: the snapshot taken when the awaiting code resumed
+    runs: Vec<Option<Vec<(Option<i64>, bool)>>>,
+    keep: Vec<Box<dyn std::any::Any>>,
+}
+type TS = std::rc::Rc<RefCell<TState>>;
+
+fn t_action(items: Vec<Sexp>, st: TS) -> Pin<Box<dyn Future<Output = ()>>> {
+    Box::pin(async move {
+        for it in items {
+            if it.at(0).num() == 0 {
+                let k = st.borrow().nodes.len() as i64;
+                let f = move || mk_fut(100 + k);
+                let node = match it.at(1).num() {
+                    1 => Node::Arena(AsyncDerived::new(f)),
+                    2 | 3 => {
+                        let fetcher = move |_: i64| mk_fut(100 + k);
+                        if it.at(1).num() == 3 {
+                            let r = Resource::new(|| 0i64, fetcher);
+                            Node::Arena(*std::ops::Deref::deref(&r))
+                        } else {
+                            let r = ArcResource::new(|| 0i64, fetcher);
+                            let n = Node::Arc(std::ops::Deref::deref(&r).clone());
+                            st.borrow_mut().keep.push(Box::new(r));
+                            n
+                        }
+                    }
+                    _ => Node::Arc(ArcAsyncDerived::new(f)),
+                };
+                st.borrow_mut().nodes.push(node);
+            } else {
+                t_run(it.at(1).list().to_vec(), st.clone()).await;
+            }
+        }
+    })
+}
+
+fn t_run(items: Vec<Sexp>, st: TS) -> Pin<Box<dyn Future<Output = ()>>> {
+    Box::pin(async move {
+        let (r, lo) = {
+            let mut s = st.borrow_mut();
+            s.runs.push(None);
+            (s.runs.len() - 1, s.nodes.len())
+        };
+        let st2 = st.clone();
+        AsyncTransition::run(move || t_action(items, st2)).await;
+        // the code after `run(..).await`: what does it see?
+        let nodes: Vec<Node> = st.borrow().nodes[lo..].to_vec();
+        let snap = nodes.iter().map(|n| (n.get_untracked(), n.loading())).collect();
+        st.borrow_mut().runs[r] = Some(snap);
+    })
+}
+
+fn run_transition(c: &Sexp) -> Sexp {
+    let st: TS = std::rc::Rc::new(RefCell::new(TState {
+        nodes: vec![],
+        runs: vec![],
+        keep: vec![],
+    }));
+    any_spawner::Executor::spawn_local(t_run(c.at(1).list().to_vec(), st.clone()));
+    assert_eq!(exec::spawned(), 1, "the awaiting task");
+    let pair = |v: Option<i64>, l: bool| Lst(vec![opt(v), Sexp::bool(l)]);
+    let obs = || -> Sexp {
+        let nodes: Vec<Node> = st.borrow().nodes.clone();
+        assert_eq!(exec::spawned(), nodes.len() + 1, "one task per node");
+        let ns = nodes.iter().map(|n| pair(n.get_untracked(), n.loading())).collect();
+        let rs = st
+            .borrow()
+            .runs
+            .iter()
+            .map(|r| match r {
+                None => Lst(vec![Num(0)]),
+                Some(s) => Lst(vec![Num(1), Lst(s.iter().map(|(v, l)| pair(*v, *l)).collect())]),
+            })
+            .collect();
+        Lst(vec![
+            Lst(ns),
+            Lst(rs),
+            Sexp::from_nums(exec::ready().into_iter().map(|x| x as i64)),
+        ])
+    };
+    let complete = |i: usize| {
+        let tx = FUTS.with(|f| f.borrow_mut().get_mut(i).and_then(|t| t.take()));
+        if let Some(tx) = tx {
+            let _ = tx.send(());
+        }
+    };
+    let mut out = vec![obs()];
+    for ev in c.at(2).list() {
+        let a = ev.at(1).num();
+        match ev.at(0).num() {
+            4 => {
+                if a >= 0 {
+                    complete(a as usize)
+                }
+            }
+            5 => {
+                if a >= 0 && (a as usize) < exec::spawned() {
+                    exec::poll(a as usize);
+                }
+            }
+            6 => {
+                exec::run_all(&ev.at(1).nums(), 100_000);
+            }
+            _ => {}
+        }
+        out.push(obs());
+    }
+    // end of the case: every future completes, the executor runs until idle
+    loop {
+        exec::run_all(&[], 100_000);
+        let n = FUTS.with(|f| f.borrow().len());
+        let mut any = false;
+        for i in 0..n {
+            if FUTS.with(|f| f.borrow()[i].is_some()) {
+                complete(i);
+                any = true;
+            }
+        }
+        if !any {
+            break;
+        }
+    }
+    out.push(obs());
+    Lst(out)
+}
+
 fn run_in(c: &Sexp) -> Sexp {
     let shape = c.at(0).num();
+    if shape == 6 {
+        return run_transition(c);
+    }
     let wrap = c.at(1).num();
     let dep = c.at(2).num() != 0;
     let dep_memo = c.at(2).num() == 2;
